@@ -6,6 +6,7 @@ import (
 	"bytes"
 	"context"
 	"errors"
+	"net"
 	"net/netip"
 	"os"
 	"sync/atomic"
@@ -21,6 +22,7 @@ import (
 
 // sessionUplinkMmsg is used for passing information about relay uplink to the relay goroutine.
 type sessionUplinkMmsg struct {
+	state          *atomic.Pointer[net.UDPConn]
 	csid           uint64
 	clientName     string
 	natConn        *conn.MmsgWConn
@@ -374,6 +376,7 @@ func (s *UDPSessionRelay) recvFromServerConnRecvmmsg(ctx context.Context, lnc *u
 
 					s.wg.Go(func() {
 						s.relayServerConnToNatConnSendmmsg(ctx, sessionUplinkMmsg{
+							state:          &entry.state,
 							csid:           csid,
 							clientName:     clientInfo.Name,
 							natConn:        natConn.NewWConn(),
@@ -556,6 +559,13 @@ main:
 				zap.Duration("natTimeout", uplink.natTimeout),
 				zap.Error(err),
 			)
+		}
+
+		// Stop swaps the session state before expiring natConn's read deadline.
+		// If that happened while the deadline was being re-armed above, expire it again,
+		// or the downlink would keep Stop waiting for a full NAT timeout.
+		if uplink.state.Load() != uplink.natConn.UDPConn {
+			_ = uplink.natConn.SetReadDeadline(conn.ALongTimeAgo)
 		}
 
 		qpvecn := qpvec[:count]
